@@ -769,7 +769,7 @@ REF: Dict[str, Callable[[dict], Ref]] = {
     "Measurement": r_Measurement, "TwoQubitClifford": r_TwoQubitClifford, "BooleanHamiltonian": r_BooleanHamiltonian,
     "Arithmetic": r_Arithmetic, "CPhase": r_CPhase, "Givens": r_Givens, "RISwap": r_RISwap, "FSimRz": r_FSimRz,
     "IdentityShape": r_Identity, "WaitShape": r_Wait, "WaitWithUnit": r_Wait, "MutableDensePauli": r_DensePauli,
-    "PhasedISwapPowS": r_PhasedISwapPow,
+    "PhasedISwapPowS": r_PhasedISwapPow, "IonqMSWide": r_IonqMS, "IonqZZWide": r_IonqZZ,
 }
 
 
